@@ -115,9 +115,43 @@ def check_verify_msm(ctx, rule):
     cfn = consistency_fn(ctx, rule)
     cons = [x for x in walk(st) if x.tag == 'call' and cfn is not None and x[1] == cfn.path] if st is not None else []
     idx_ok = st is not None and st.tag == 'elemat' and st[2].tag == 'field' and st[2][1] == '1' and st[2][2].tag == 'call' and st[2][2] in cons
+    struct_form = None
+    if not idx_ok and st is not None and cfn is not None:
+        # result struct: the table's statement is the component of the consistency call that the function fills with statements[index]
+        cr = consistency_result(ctx, cfn)
+        calls_c = [(bb2, t2) for bb2, t2 in ctx.calls(v) if callee_name(t2) == cfn.path]
+        if cr is not None and cr[3] is not None and len(calls_c) == 1:
+            from bpsa.terms import project_field
+            cres = ctx.result(v, calls_c[0][0])
+            comp = project_field(cres, cr[3], -1)
+            if strip_mut(comp) is strip_mut(st) and st.tag == 'elemat' and strip_mut(st[1]).tag == 'param':
+                idx_ok = True
+                struct_form = (cres, cr)
     rep.check(idx_ok, rule, rule + '/verifier/max-statement', 'table and padding come from statements[index returned by the consistency function]: %s' % short(st, 160),
               'the statement used for table/padding is not selected by the index returned from the consistency function: %s' % (short(st, 200) if st is not None else None), where)
-    if idx_ok:
+    if idx_ok and struct_form is not None:
+        # lengths: the usize component of the same result
+        from bpsa.terms import project_field
+        cres, cr = struct_form
+        lname = None
+        for b2 in cfn.blocks:
+            for s2 in b2['stmts']:
+                if s2['k'] == 'assign' and s2['rv']['k'] == 'aggregate' and s2['rv']['kind'].get('a') == 'adt' and cr[3] in s2['rv']['kind'].get('fields', []):
+                    for fn_, o in zip(s2['rv']['kind']['fields'], s2['rv']['ops']):
+                        if o['k'] in ('copy', 'move') and cfn.local_ty(o['place']['l']) == 'usize':
+                            lname = fn_
+        static = strip_mut(r['static'])
+        il = strip_mut(static[1]) if static.tag == 'chain' else None
+        lens = []
+        if il is not None and il.tag == 'interleave':
+            for side in (il[1], il[2]):
+                s0 = strip_mut(side)
+                lens.append(s0[2][1] if s0.tag == 'call' and s0[1].endswith('from_elem') and len(s0[2]) == 2 else None)
+        want = project_field(cres, lname, -1) if lname else None
+        lens_ok = bool(lens) and want is not None and all(l is not None and strip_mut(l) is strip_mut(want) for l in lens)
+        rep.check(lens_ok, rule, rule + '/verifier/max-length', 'both per-generator scalar vectors have the length returned with the selected statement',
+                  'per-generator scalar vectors are not sized by the length returned with the selected statement', where)
+    elif idx_ok:
         call = st[2][2]
         static = strip_mut(r['static'])
         il = strip_mut(static[1]) if static.tag == 'chain' else None
@@ -163,8 +197,83 @@ def consistency_fn(ctx, rule):
         n = callee_name(t)
         if n in ctx.facts.fn and '(usize, usize)' in ctx.facts.fn[n].locals[0]['ty']:
             return ctx.facts.fn[n]
+    # however it packages its result: the crate function that the core hands its whole statement and proof slices before anything else
+    # (its failure is the core's failure)
+    cfg = ctx.cfgof(v)
+    slices = [i for i in range(1, v.argc + 1) if v.local_ty(i).startswith('&[') and 'Transcript' not in v.local_ty(i)]
+    sites = msm_sites(ctx, v)
+    for bb, t in ctx.calls(v):
+        n = callee_name(t)
+        cal = ctx.facts.fn.get(n)
+        if cal is None or cal.impl_trait or cal.is_closure:
+            continue
+        a = ctx.args(v, bb)
+        roots = [strip_mut(x) for x in a]
+        if len(a) == len(slices) and all(r.tag == 'param' and r[2] in slices for r in roots) and len({r[2] for r in roots}) == len(slices) \
+                and 'Result<' in cal.locals[0]['ty'] and sites and cfg.dominates(bb, sites[0][0]):
+            return cal
     ctx.rep.anchor_missing(rule, rule + '/consistency-fn', 'consistency function not found among the callees of the verifier core')
     return None
+
+
+def consistency_result(ctx, c):
+    """(block, length local, index local, name of the result component that designates the selected statement or None for the
+    (length, index) tuple form) of the consistency function's success value"""
+    ix = ctx.eng.bx(c)
+
+    def origin(l):
+        hops = 0
+        while l is not None and hops < 4:
+            wd = ix.whole_defs(l)
+            if len(wd) == 1 and wd[0][2] == 'assign' and wd[0][3]['rv']['k'] == 'use' and wd[0][3]['rv']['op']['k'] in ('copy', 'move') and not wd[0][3]['rv']['op']['place']['p']:
+                l = wd[0][3]['rv']['op']['place']['l']
+                hops += 1
+            else:
+                break
+        return l
+    best = None
+    for b in c.blocks:
+        if b['cleanup']:
+            continue
+        for s in b['stmts']:
+            if s['k'] != 'assign' or s['rv']['k'] != 'aggregate':
+                continue
+            kind = s['rv']['kind']
+            ops = s['rv']['ops']
+            if kind.get('a') == 'tuple' and len(ops) == 2 and s['place']['ty'] == '(usize, usize)':
+                locs = [origin(o['place']['l']) if o['k'] in ('copy', 'move') else None for o in ops]
+                if None not in locs:
+                    return b['i'], locs[0], locs[1], None
+            if kind.get('a') == 'adt' and not kind.get('path', '').startswith('std::') and 'fields' in kind and 'ProofError' not in kind.get('path', ''):
+                # a result struct: a usize component computed as a product (the length) and a statement reference obtained by indexing the
+                # statements with a local (the index)
+                len_l = idx_l = fname = None
+                for fn_, o in zip(kind['fields'], ops):
+                    if o['k'] not in ('copy', 'move') or o['place']['p']:
+                        continue
+                    l = origin(o['place']['l'])
+                    ty = c.local_ty(l)
+                    if ty == 'usize':
+                        defs_t = [ctx.eng.expand(ctx.eng.rvalue(c, d[0], d[1], d[3]['rv']) if d[2] == 'assign' else ctx.eng.call_result(c, d[0])) for d in ix.whole_defs(l)]
+                        if any(x.tag == 'call' and x[1].endswith('checked_mul') for dt in defs_t for x in walk(dt)):
+                            len_l = l
+                    elif 'RangeStatement' in ty:
+                        for d in ix.whole_defs(l):
+                            node = d[3]
+                            t2 = node if d[2] == 'call' else None
+                            if t2 is None and d[2] == 'assign':
+                                # through `?`: the payload of a call result
+                                src = ctx.eng.rvalue(c, d[0], d[1], node['rv'])
+                                for (bb2, tt) in ctx.calls(c):
+                                    if callee_decl(tt) in ('core::slice::<impl [T]>::get', 'std::ops::Index::index') and ctx.result(c, bb2) is strip_mut(src):
+                                        t2 = tt
+                            if t2 is not None and callee_decl(t2) in ('core::slice::<impl [T]>::get', 'std::ops::Index::index') and len(t2['args']) == 2 and t2['args'][1]['k'] in ('copy', 'move'):
+                                cand = origin(t2['args'][1]['place']['l'])
+                                if c.local_ty(cand) == 'usize' and len(ix.whole_defs(cand)) >= 2:
+                                    idx_l, fname = cand, fn_
+                if len_l is not None and idx_l is not None:
+                    best = (b['i'], len_l, idx_l, fname)
+    return best
 
 
 def check_consistency_pair(ctx, rule):
@@ -176,36 +285,11 @@ def check_consistency_pair(ctx, rule):
         return
     rep.saw_body(c)
     ix = ctx.eng.bx(c)
-    # locate the Ok((a, b)) aggregate
-    pair = None
-    for b in c.blocks:
-        if b['cleanup']:
-            continue
-        for s in b['stmts']:
-            if s['k'] == 'assign' and s['rv']['k'] == 'aggregate' and s['rv']['kind'].get('a') == 'tuple' and len(s['rv']['ops']) == 2 and s['place']['ty'] == '(usize, usize)':
-                pair = (b['i'], s)
-    if pair is None:
-        rep.anchor_missing(rule, rule + '/consistency/pair', 'no (usize, usize) result tuple in %s' % c.path)
+    cr = consistency_result(ctx, c)
+    if cr is None:
+        rep.anchor_missing(rule, rule + '/consistency/pair', 'cannot find the (length, index / selected statement) result of %s' % c.path)
         return
-    bb, s = pair
-    ops = s['rv']['ops']
-    locs = []
-    for o in ops:
-        # follow copies back to the user variable
-        l = o['place']['l'] if o['k'] in ('copy', 'move') else None
-        hops = 0
-        while l is not None and hops < 4:
-            wd = ix.whole_defs(l)
-            if len(wd) == 1 and wd[0][2] == 'assign' and wd[0][3]['rv']['k'] == 'use' and wd[0][3]['rv']['op']['k'] in ('copy', 'move') and not wd[0][3]['rv']['op']['place']['p']:
-                l = wd[0][3]['rv']['op']['place']['l']
-                hops += 1
-            else:
-                break
-        locs.append(l)
-    if None in locs:
-        rep.anchor_missing(rule, rule + '/consistency/pair', 'result tuple operands are not locals')
-        return
-    len_l, idx_l = locs
+    bb, len_l, idx_l, _fname = cr
     ldefs = {d[0]: d for d in ix.whole_defs(len_l)}
     idefs = ix.whole_defs(idx_l)
     ok = True
